@@ -6,6 +6,7 @@ and the property holds for every request shape. The guard is the one of the sour
 import KinModel.BodyReq
 import KinModel.Props.C06
 import KinModel.Gen.C06BodyRead
+import KinModel.Gen.C06DefaultGuard
 namespace KinModel.Body
 
 /-! ## the guard of the read is the source's -/
@@ -54,6 +55,61 @@ class "skip the read when the request announces no content" — and a body of un
 theorem guard_on_contentLength_differs :
     evalGuard (.contentLength "!=" 0 :: guardSrc) ⟨.stream, 0⟩ = false ∧ evalGuard guardSrc ⟨.stream, 0⟩ = true ∧
     evalGuard (.contentLength ">" 0 :: guardSrc) ⟨.stream, -1⟩ = false ∧ evalGuard guardSrc ⟨.stream, -1⟩ = true := by
+  decide
+
+/-! ## the guard of default injection is the source's (class of seeded change r3m2) -/
+
+/-- every row and every conjunct of the regenerated table was readable -/
+theorem defaultGuard_recognised :
+    Gen.c06DefaultGuard.all (fun r => match r with
+      | .unrecognised _ => false
+      | .define _ c => c.all (fun a => match a with | .unreadable _ => false | _ => true)
+      | .injectIf c => c.all (fun a => match a with | .unreadable _ => false | _ => true)) = true := by
+  decide
+
+/-- the regenerated rows are the rows the model evaluates -/
+theorem defaultGuard_is_source :
+    Gen.c06DefaultGuard.map (fun r =>
+      let atom : Gen.C06DAtom → DAtom := fun a => match a with
+        | .asreq => .asreq | .asrep => .asrep | .readOnly => .readOnly | .writeOnly => .writeOnly
+        | .notRODisabled => .notRODisabled | .notWODisabled => .notWODisabled | .dfltNotNil => .dfltNotNil
+        | .absent => .absent | .defaultsSet => .defaultsSet
+        | .notVar .reqRO => .notVar .reqRO | .notVar .repWO => .notVar .repWO
+        | .unreadable _ => .unreadable
+      match r with
+      | .define .reqRO c => DRow.define .reqRO (c.map atom)
+      | .define .repWO c => DRow.define .repWO (c.map atom)
+      | .injectIf c => DRow.injectIf (c.map atom)
+      | .unrecognised _ => DRow.unrecognised) = dRowsSrc := by
+  decide
+
+/-- **what the source's guard means in a request**: for every property schema, either setting of the read-only
+exclusion (and of the write-only one, which plays no role), the default is written exactly when the property is
+absent and the model's `dfltFor` yields a default — i.e. it has one and is not read-only-in-a-request -/
+theorem inject_guard_is_dfltFor (exro wod ab : Bool) (p : RS) :
+    evalDRows dRowsSrc (fun _ => none) (reqEnv exro wod ab p) = some (ab && (dfltFor exro p).isSome) := by
+  have key : ∀ ro wo dp : Bool,
+      evalDRows dRowsSrc (fun _ => none) ⟨true, false, ro, wo, exro, wod, dp, ab, true⟩ = some (ab && (dp && !(ro && !exro))) := by
+    intro ro wo dp
+    cases ro <;> cases wo <;> cases dp <;> cases exro <;> cases wod <;> cases ab <;> rfl
+  unfold reqEnv
+  rw [key]
+  unfold dfltFor reqRO
+  cases p.ro <;> cases exro <;> cases p.dflt <;> simp
+
+/-- a read-only property never receives its default in a request (unless read-only validation is excluded), by the
+guard of the source -/
+theorem source_guard_protects_readOnly (wod ab : Bool) (p : RS) (h : p.ro = true) :
+    evalDRows dRowsSrc (fun _ => none) (reqEnv false wod ab p) = some false := by
+  rw [inject_guard_is_dfltFor]
+  simp [dfltFor, reqRO, h]
+
+/-- sensitivity (non-vacuity): the seeded guard `!(reqRO && repWO)` — always true in a request — is another function -/
+theorem weakened_guard_differs :
+    evalDRows [.define .reqRO [.asreq, .readOnly, .notRODisabled], .define .repWO [.asrep, .writeOnly, .notWODisabled],
+               .injectIf [.absent, .defaultsSet, .dfltNotNil]] (fun _ => none)
+      ⟨true, false, true, false, false, false, true, true, true⟩ = some true ∧
+    evalDRows dRowsSrc (fun _ => none) ⟨true, false, true, false, false, false, true, true, true⟩ = some false := by
   decide
 
 /-! ## the verdict over request shapes -/
